@@ -10,7 +10,7 @@ import types
 import z3
 
 from . import cards, sstr
-from .symx import (BoundSym, CardSet, Infeasible, MergeFail, Opaque, RaiseEx, SArr, SBool, SEnum, SInt,
+from .symx import (AltObj, BoundSym, CardSet, Infeasible, MergeFail, Opaque, RaiseEx, SArr, SBool, SEnum, SInt,
                    SList, SLog, SObj, SStr, Sym, SymCallable, SymSetLiteral, Unsupported, enum_code, is_sym,
                    zbool, zenum, zint)
 
@@ -88,26 +88,24 @@ def _sorted(eng, it, key=None, reverse=False):
     if isinstance(it, Sym):
         raise Unsupported('sorted of ' + type(it).__name__)
     items = list(it)
-    if key is not None:
-        raise Unsupported('sorted with key')
-    if not any(is_sym(x) for x in items):
+    keys = items if key is None else [eng.call(key, [x], {}) for x in items]
+    if not any(is_sym(k) for k in keys):
         try:
-            return sorted(items, reverse=reverse)
+            order = sorted(range(len(items)), key=lambda i: keys[i], reverse=reverse)
         except Exception as e:
             raise RaiseEx(e)
-    # symbolic cards: insertion sort by deciding comparisons with the real __lt__
+        return [items[i] for i in order]
+    # symbolic keys: stable insertion sort deciding comparisons (objects: with the real __lt__)
     out = []
-    for x in items:
+    for x, k in zip(items, keys):
         pos = len(out)
-        for j, y in enumerate(out):
-            lt = _less(eng, x, y)
+        for j, (y, ky) in enumerate(out):
+            lt = _less(eng, ky, k) if reverse else _less(eng, k, ky)
             if eng.decide(lt) if not isinstance(lt, bool) else lt:
                 pos = j
                 break
-        out.insert(pos, x)
-    if reverse:
-        out.reverse()
-    return out
+        out.insert(pos, (x, k))
+    return [x for x, _ in out]
 
 
 def _less(eng, x, y):
@@ -128,7 +126,25 @@ class SortedCards(Sym):
 
 
 def call_builtin(eng, fn, args, kwargs):
+    from .symx import GuardedList as _GL
     a0 = args[0] if args else None
+    if fn is type and len(args) == 1 and not kwargs:
+        o = args[0]
+        if isinstance(o, SObj):
+            return o.cls
+        if isinstance(o, SEnum):
+            return o.cls
+        if isinstance(o, sstr.SBytes):
+            return bytes
+        if isinstance(o, SStr):
+            return str
+        if isinstance(o, SInt):
+            return int
+        if isinstance(o, SBool):
+            return bool
+        if isinstance(o, Sym):
+            raise Unsupported('type() of ' + type(o).__name__)
+        return type(o)
     if fn is len:
         return _len(eng, a0)
     if fn is isinstance:
@@ -184,11 +200,19 @@ def call_builtin(eng, fn, args, kwargs):
         return eng.truth(a0) if args else False
     if fn is abs and isinstance(a0, SInt):
         return SInt(z3.If(a0.z >= 0, a0.z, -a0.z))
+    if fn in (tuple, list) and isinstance(a0, _GL):
+        if all(g is None for g, _ in a0.items):
+            return fn(v for _, v in a0.items)
+        return a0
     if fn is tuple:
         if not args:
             return ()
         if isinstance(a0, SortedCards):
             raise Unsupported('tuple of sorted cardset')
+        if isinstance(a0, SLog):
+            snap = SLog(a0.base)          # an immutable snapshot of the log as it is now
+            snap.app = list(a0.app)
+            return snap
         if isinstance(a0, Sym):
             raise Unsupported('tuple of ' + type(a0).__name__)
         return tuple(a0)
@@ -208,6 +232,16 @@ def call_builtin(eng, fn, args, kwargs):
             return CardSet([z3.BoolVal(False)] * 52, z3.IntVal(0))
         if isinstance(a0, CardSet):
             return a0.copy()
+        if isinstance(a0, _GL):
+            cs = CardSet([z3.BoolVal(False)] * 52, z3.IntVal(0))
+            for g, v in a0.items:
+                if not cards.is_card(v):
+                    raise Unsupported('set() of guarded non-cards')
+                if g is not None:
+                    eng.under_guard(g, lambda v=v: cards.add(eng, cs, v))
+                else:
+                    cards.add(eng, cs, v)
+            return cs
         items = list(a0)
         if items and all(cards.is_card(x) for x in items) and any(isinstance(x, Sym) for x in items):
             return cards.cardset_from_symbolic_cards(eng, items)
@@ -226,6 +260,9 @@ def call_builtin(eng, fn, args, kwargs):
         return list(zip(*[list(a) for a in args]))
     if fn is map:
         f, it = args[0], args[1]
+        if isinstance(it, (CardSet, SortedCards, _GL)):
+            fr = _frame_for(eng)
+            return _GL([(g, eng.call(f, [x], {})) for g, x in fr.iterate(it)])
         return [eng.call(f, [x], {}) for x in it]
     if fn is range:
         if any(isinstance(a, Sym) for a in args):
@@ -253,6 +290,14 @@ def call_builtin(eng, fn, args, kwargs):
         except RaiseEx as e:
             if len(args) > 2 and isinstance(e.exc, AttributeError):
                 return args[2]
+            raise
+    if fn is hasattr and isinstance(a0, Sym) and isinstance(args[1], str):
+        try:
+            _frame_for(eng).getattr(a0, args[1])
+            return True
+        except RaiseEx as e:
+            if isinstance(e.exc, AttributeError):
+                return False
             raise
     if fn is setattr and isinstance(a0, SObj) and isinstance(args[1], str):
         a0.attrs[args[1]] = args[2]
@@ -295,6 +340,64 @@ def call_builtin(eng, fn, args, kwargs):
         if not zs:
             return fn is all
         return SBool(z3.And(zs) if fn is all else z3.Or(zs))
+    if fn is next:
+        default = args[1] if len(args) > 1 else NOT_HANDLED
+        if isinstance(a0, list):
+            if a0:
+                return a0[0]
+            if default is NOT_HANDLED:
+                raise RaiseEx(StopIteration())
+            return default
+        if isinstance(a0, _GL):
+            # first element that is present; all elements must be mergeable with the default
+            r = default
+            if r is NOT_HANDLED:
+                raise Unsupported('next() of a guarded collection without a default')
+            try:
+                for g, x in reversed(a0.items):
+                    r = x if g is None else eng.ite(g, x, r)
+                return r
+            except MergeFail:
+                # values of different shapes (e.g. str and None): decide which element is the first one present
+                for g, x in a0.items:
+                    if g is None or eng.decide(g):
+                        return x
+                return default
+    if fn in (min, max) and 'key' in kwargs and len(args) == 1 and isinstance(a0, _GL):
+        keyf = kwargs['key']
+        best = kb = None
+        have = z3.BoolVal(False)
+        for g, x in a0.items:
+            gg = g if g is not None else z3.BoolVal(True)
+            kx = eng.call(keyf, [x], {})
+            if best is None:
+                best, kb = x, kx
+            else:
+                better = (zint(kx) > zint(kb)) if fn is max else (zint(kx) < zint(kb))
+                take = z3.And(gg, z3.Or(z3.Not(have), better))
+                best, kb = eng.ite(take, x, best), eng.ite(take, kx, kb)
+            have = z3.Or(have, gg)
+        if best is None or not eng.decide(have):
+            raise RaiseEx(ValueError('max() arg is an empty sequence'))
+        return best
+    if fn in (min, max) and 'key' in kwargs:
+        items = list(args) if len(args) > 1 else list(a0)
+        if not items:
+            raise RaiseEx(ValueError('max() arg is an empty sequence'))
+        keyf = kwargs['key']
+        best, kb = items[0], eng.call(keyf, [items[0]], {})
+        for x in items[1:]:
+            kx = eng.call(keyf, [x], {})
+            better = (zint(kx) > zint(kb)) if fn is max else (zint(kx) < zint(kb))
+            better = z3.simplify(better)
+            if z3.is_true(better) or (not z3.is_false(better) and eng.decide(better)):
+                best, kb = x, kx
+        return best
+    if fn is dict and not any(isinstance(a, Sym) for a in args):
+        try:
+            return dict(*[list(a) if not isinstance(a, dict) else a for a in args], **kwargs)
+        except (TypeError, ValueError) as e:
+            raise RaiseEx(e)
     if fn in (min, max) and any(isinstance(a, Sym) for a in (args if len(args) > 1 else list(a0))):
         items = list(args) if len(args) > 1 else list(a0)
         r = zint(items[0])
@@ -313,11 +416,13 @@ def call_builtin(eng, fn, args, kwargs):
         raise Unsupported('hash of symbolic')
     # numpy
     if np is not None:
+        if fn is np.array and isinstance(a0, (list, tuple)) and any(isinstance(x, Sym) for x in a0):
+            return SArr([x if isinstance(x, (int, float)) else zint(x) for x in a0])
         if fn is np.ones or fn is np.zeros:
             n = a0
             if isinstance(n, int):
                 return SArr([1 if fn is np.ones else 0] * n)
-        if fn is np.where:
+        if fn is np.where or fn is np.nonzero or fn is np.flatnonzero:
             cond = a0
             if isinstance(cond, SArr):
                 # condition vector of 0/1 Int terms; result = (indices present under guards,)
@@ -329,8 +434,8 @@ def call_builtin(eng, fn, args, kwargs):
                     out.append((None if z3.is_true(z) else z, i))
                 from .symx import GuardedList
                 if any(g is not None for g, _ in out):
-                    return (GuardedList(out),)
-                return ([i for _, i in out],)
+                    return GuardedList(out) if fn is np.flatnonzero else (GuardedList(out),)
+                return [i for _, i in out] if fn is np.flatnonzero else ([i for _, i in out],)
             return NOT_HANDLED
     pat = getattr(fn, '__self__', None)
     if isinstance(pat, _re.Pattern) and (any(isinstance(a, SStr) for a in args) or eng.always_interpret):
@@ -475,6 +580,21 @@ def shallowcopy(v):
 # --------------------------------------------------------------------------
 def sym_method(frame, o, a):
     eng = frame.eng
+    if isinstance(o, AltObj):
+        def apply(*args):
+            for g, obj in o.alts:
+                eng.under_guard(g, lambda obj=obj: eng.call(sym_method(frame, obj, a), list(args), {}))
+            return None
+        if a in ('add', 'discard'):
+            return SymCallable(apply)
+        raise Unsupported('method ' + a + ' on one-of-several objects')
+    from .symx import GuardedList as _GL2
+    if isinstance(o, _GL2):
+        if a == 'tolist':
+            return SymCallable(lambda: o)
+        raise Unsupported('GuardedList.' + a)
+    if isinstance(o, SortedCards):
+        raise Unsupported('SortedCards.' + a)
     if isinstance(o, CardSet):
         if a in ('union', 'intersection', 'difference', 'symmetric_difference'):
             k = {'union': 'or', 'intersection': 'and', 'difference': 'sub', 'symmetric_difference': 'xor'}[a]
@@ -624,7 +744,7 @@ def str_method(eng, o, a):
             return SBool(z3.And(conds)) if conds else True
         return S(pred)
     if a == 'format':
-        raise Unsupported('str.format on symbolic')
+        raise Unsupported('str.format on a symbolic template')
     raise Unsupported('str.' + a)
 
 
@@ -643,6 +763,28 @@ def concrete_method(frame, o, a):
                     return sstr.join(eng, o, items)
                 return o.join(items)
             return SymCallable(join)
+        if a == 'format' and isinstance(o, str):
+            def fmt(*fa, **fk):
+                if not (any(isinstance(x, Sym) for x in fa) or any(isinstance(x, Sym) for x in fk.values())):
+                    return o.format(*fa, **fk)
+                import string as _string
+                parts, auto = [], 0
+                for lit, field, spec, conv in _string.Formatter().parse(o):
+                    parts.append(lit)
+                    if field is None:
+                        continue
+                    if spec or conv or any(ch in field for ch in '.['):
+                        raise Unsupported('str.format field with spec/conversion/attribute on symbolic values')
+                    if field == '':
+                        v = fa[auto]
+                        auto += 1
+                    elif field.isdigit():
+                        v = fa[int(field)]
+                    else:
+                        v = fk[field]
+                    parts.append(model_str(eng, v))
+                return sstr.concat(eng, parts)
+            return SymCallable(fmt)
         if a in ('replace', 'split', 'find', 'startswith', 'endswith') :
             def meth(*args, **kw):
                 if any(isinstance(x, SStr) for x in args):
@@ -851,14 +993,25 @@ def compare(frame, op, a, b):
     if eng.always_interpret and cards.is_card(a):
         name = {ast.Lt: '__lt__', ast.LtE: '__le__', ast.Gt: '__gt__', ast.GtE: '__ge__'}[type(op)]
         return eng.call_function(getattr(type(a), name), [a, b], {})
+    f = table[type(op)]
     try:
-        return table[type(op)](a, b)
+        return f(a, b)
     except Exception as e:
         raise RaiseEx(e)
 
 
 def contains(frame, container, x):
     eng = frame.eng
+    from .symx import GuardedList as _GL3
+    if isinstance(container, _GL3):
+        alts = []
+        for g, v in container.items:
+            r = values_equal(eng, v, x)
+            if r is False:
+                continue
+            gg = g if g is not None else z3.BoolVal(True)
+            alts.append(gg if r is True else z3.And(gg, r))
+        return z3.Or(alts) if alts else False
     if isinstance(container, CardSet):
         if not cards.is_card(x):
             return False
@@ -960,9 +1113,11 @@ def binop(frame, op, a, b):
     if not isinstance(a, Sym) and not isinstance(b, Sym):
         table = {ast.Add: operator.add, ast.Sub: operator.sub, ast.Mult: operator.mul,
                  ast.FloorDiv: operator.floordiv, ast.Mod: operator.mod, ast.Div: operator.truediv,
-                 ast.BitOr: operator.or_, ast.BitAnd: operator.and_, ast.Pow: operator.pow}
+                 ast.BitOr: operator.or_, ast.BitAnd: operator.and_, ast.Pow: operator.pow, ast.BitXor: operator.xor,
+                 ast.LShift: operator.lshift, ast.RShift: operator.rshift, ast.MatMult: operator.matmul}
+        f = table[type(op)]
         try:
-            return table[type(op)](a, b)
+            return f(a, b)
         except Exception as e:
             raise RaiseEx(e)
     if isinstance(a, (list, tuple)) or isinstance(b, (list, tuple)):
